@@ -99,6 +99,11 @@ def replay_pair(ctx, prop, case, method=False):
 
 def finish_model_check(ctx):
     mm = ctx.extra.get('model_mismatch')
+    if mm and ctx.broken:
+        # the model is generated from / tied to the source; with broken obligations it may legitimately
+        # follow a broken source.  The verdicts above used the independent exact oracle.
+        ctx.stats['model follows the broken source (oracle used as truth)'] = len(mm)
+        return
     if mm:
         for x in mm[:5]:
             core.log('MODEL MISMATCH (infrastructure, not a violation): %s' % x)
